@@ -26,6 +26,9 @@ def blocks_all(rng, tier):
         for how in ("own", "raw"):
             blocks.append(["mk %s 0 0" % k, "reg %s 10" % how, "raise 2", "eintr-close", "unreg", "raise 1", "final"])
             blocks.append(["mk %s 0 0" % k, "eintr-close", "reg %s 100" % how, "final"])
+            # the write end is descriptor 0: owned (and closed on removal or refusal) or borrowed exactly as any other
+            blocks.append(["mk %s 0 0" % k, "fd0", "reg %s 10" % how, "raise 2", "drain", "unreg", "final"])
+            blocks.append(["mk %s 0 0" % k, "fd0", "reg %s 100" % how, "final"])
     # a descriptor that is no socket and refuses F_SETFL (O_PATH): the registration is rejected by the
     # error of `set_flags` and the descriptor handed over must still be closed exactly once
     for how in ("raw", "own"):
